@@ -153,6 +153,10 @@ pub trait WorldApi {
     /// (values alive in the process, values physically present in the arenas of all maps of this
     /// world); None while another world is alive (the count is global)
     fn value_accounting(&self) -> Option<(i64, usize)>;
+    /// serde round trip of the map's entries with other value types (`Option<u64>` with some `None`,
+    /// and `()`): None = fine or unsupported for this kind, Some(message) = the round trip lost or
+    /// changed entries
+    fn serde_other_values(&self, s: Slot) -> Option<String>;
 }
 
 pub struct World<K: Kind> {
@@ -552,6 +556,17 @@ fn obs_view_mut<K: Kind, T: Val>(v: &mut TrieViewMut<'_, K::P, T>, ok: bool) -> 
     let pv = v.prefix_value().map(|(p, x)| it::<K, T>(p, x));
     let has_left = v.has_left();
     let has_right = v.has_right();
+    {
+        // several shared reads through one mutable view may be alive at once
+        let r1 = v.value();
+        let r2 = v.prefix_value();
+        let r3 = v.value();
+        let p1 = v.prefix();
+        let ro = (&*v).view();
+        let n = ro.iter().count();
+        let same = r1.map(|x| x.get()) == r3.map(|x| x.get()) && r2.map(|(_, x)| x.get()) == r1.map(|x| x.get()) && K::dec(p1) == prefix && n >= r1.is_some() as usize;
+        assert!(same, "ORACLE:overlapping shared reads through a mutable view disagree");
+    }
     let keys = (&*v).view().keys().map(|p| K::dec(p)).collect();
     // the read-only re-borrow must show the very same position
     let ro = obs_view::<K, T>(&(&*v).view(), ok);
@@ -701,6 +716,10 @@ fn pair_ro<'a, K: Kind, L: Val, R: Val>(a: &TrieView<'a, K::P, L>, b: TrieView<'
     let mut exceeded = false;
     let mut proto_bad: Option<(String, String)> = None;
     let b2 = b.clone();
+    // shared references into both operands (taken before) stay valid across a read-only operation
+    let keep_a: Vec<&L> = a.values().collect();
+    let keep_b: Vec<&R> = b.clone().values().collect();
+    let before: u64 = keep_a.iter().fold(0u64, |s, x| s.wrapping_add(x.get())).wrapping_add(keep_b.iter().fold(0u64, |s, x| s.wrapping_add(x.get())));
     macro_rules! run {
         ($iter:expr, $conv:expr) => {{
             let mut iter = $iter;
@@ -758,6 +777,8 @@ fn pair_ro<'a, K: Kind, L: Val, R: Val>(a: &TrieView<'a, K::P, L>, b: TrieView<'
         }),
         _ => unreachable!(),
     }
+    let after: u64 = keep_a.iter().fold(0u64, |s, x| s.wrapping_add(x.get())).wrapping_add(keep_b.iter().fold(0u64, |s, x| s.wrapping_add(x.get())));
+    assert!(before == after, "ORACLE:values changed during a read-only set operation");
     if !exceeded {
         // the same operation consumed another way (only the selection is compared here: key and tag)
         let full: Vec<(Key, Tag)> = items.iter().map(|i| (i.key, i.tag)).collect();
@@ -932,6 +953,9 @@ fn pair_mut<'a, K: Kind, L: Val, R: Val>(a: &'a mut TrieViewMut<'_, K::P, L>, b:
             }
         }
         (PairOp::DifferenceMut, RhsMut::Ro(b)) => {
+            // shared references into the read-only operand stay valid across the operation
+            let keep: Vec<&R> = b.clone().values().collect();
+            let before: u64 = keep.iter().fold(0u64, |s, x| s.wrapping_add(x.get()));
             let mut iter = a.difference_mut(b);
             while let Some(d) = iter.next() {
                 seen.push((Some(d.value.get()), None));
@@ -941,8 +965,12 @@ fn pair_mut<'a, K: Kind, L: Val, R: Val>(a: &'a mut TrieViewMut<'_, K::P, L>, b:
             for _ in 0..3 {
                 assert!(iter.next().is_none(), "ORACLE:difference_mut not fused");
             }
+            let after: u64 = keep.iter().fold(0u64, |s, x| s.wrapping_add(x.get()));
+            assert!(before == after, "ORACLE:values of the read-only operand changed during difference_mut");
         }
         (PairOp::CoveringDifferenceMut, RhsMut::Ro(b)) => {
+            let keep: Vec<&R> = b.clone().values().collect();
+            let before: u64 = keep.iter().fold(0u64, |s, x| s.wrapping_add(x.get()));
             let mut iter = a.covering_difference_mut(b);
             while let Some((p, l)) = iter.next() {
                 seen.push((Some(l.get()), None));
@@ -951,6 +979,8 @@ fn pair_mut<'a, K: Kind, L: Val, R: Val>(a: &'a mut TrieViewMut<'_, K::P, L>, b:
             for _ in 0..3 {
                 assert!(iter.next().is_none(), "ORACLE:covering_difference_mut not fused");
             }
+            let after: u64 = keep.iter().fold(0u64, |s, x| s.wrapping_add(x.get()));
+            assert!(before == after, "ORACLE:values of the read-only operand changed during covering_difference_mut");
         }
         _ => panic!("HARNESS:pair_mut operand kind mismatch"),
     }
@@ -1574,6 +1604,39 @@ impl<K: Kind> WorldApi for World<K> {
     }
     fn keeps_host(&self) -> bool {
         K::KEEPS_HOST
+    }
+    fn serde_other_values(&self, s: Slot) -> Option<String> {
+        use std::any::Any;
+        fn rt<P>(m: &PrefixMap<P, V>) -> Option<String>
+        where
+            P: Prefix + Clone + std::fmt::Debug + PartialEq + serde::Serialize + for<'d> serde::Deserialize<'d> + std::hash::Hash + Eq,
+        {
+            let a: PrefixMap<P, Option<u64>> = m.iter().map(|(p, v)| (p.clone(), if v.get() % 3 == 0 { None } else { Some(v.get()) })).collect();
+            let s = serde_json::to_string(&a).expect("ORACLE:serde serialize failed (Option values)");
+            let back: PrefixMap<P, Option<u64>> = serde_json::from_str(&s).expect("ORACLE:serde deserialize failed (Option values)");
+            if back.len() != a.len() || !back.iter().eq(a.iter()) {
+                return Some(format!("a map with Option values ({} entries, {} of them None) comes back from serde_json with {} entries: {:?} -> {:?}", a.len(), a.values().filter(|v| v.is_none()).count(), back.len(), a.iter().collect::<Vec<_>>(), back.iter().collect::<Vec<_>>()));
+            }
+            let u: PrefixMap<P, ()> = m.iter().map(|(p, _)| (p.clone(), ())).collect();
+            let s = serde_json::to_string(&u).expect("ORACLE:serde serialize failed (unit values)");
+            let back: PrefixMap<P, ()> = serde_json::from_str(&s).expect("ORACLE:serde deserialize failed (unit values)");
+            if back.len() != u.len() || !back.keys().eq(u.keys()) {
+                return Some(format!("a map with () values ({} entries) comes back from serde_json with {} entries", u.len(), back.len()));
+            }
+            None
+        }
+        let i = match s {
+            Slot::Map(i) => i,
+            _ => return None,
+        };
+        let any: &dyn Any = &self.maps[i];
+        if let Some(m) = any.downcast_ref::<PrefixMap<ipnet::Ipv4Net, V>>() {
+            return rt(m);
+        }
+        if let Some(m) = any.downcast_ref::<PrefixMap<ipnet::Ipv6Net, V>>() {
+            return rt(m);
+        }
+        None
     }
     fn value_accounting(&self) -> Option<(i64, usize)> {
         if LIVE_WORLDS.load(Ordering::SeqCst) != 1 {
